@@ -4,7 +4,8 @@ TIER=${1:-quick}
 cd "$(dirname "$0")/.."
 OUT=/tmp/run_all_$TIER.out
 : > $OUT
-for p in $(python3 -c "import json; print(' '.join(c['property_id'] for c in json.load(open('MANIFEST.json'))['checks']))"); do
+ALL=$(python3 -c "import json; print(' '.join(c['property_id'] for c in json.load(open('MANIFEST.json'))['checks']))")
+for p in ${PROPS:-$ALL}; do
   t0=$(date +%s)
   ./check $p --tier $TIER > /tmp/run_all_${TIER}_$p.log 2>&1; rc=$?
   echo "$p rc=$rc $(( $(date +%s) - t0 ))s $(grep -c '^KNOWN-FINDING' /tmp/run_all_${TIER}_$p.log) known; $(grep -E '^VIOLATION|^INCONCLUSIVE' /tmp/run_all_${TIER}_$p.log | head -2 | cut -c1-200 | tr '\n' ';')" | tee -a $OUT
